@@ -6,10 +6,10 @@ patch=/verif/seeded/$slot/patch.diff
 [ -f "$patch" ] || patch=/tmp/seed/$slot/out/patch.diff
 cd /repo || exit 2
 if [ -n "$(git status --porcelain -- valjean)" ]; then echo "repo not clean"; exit 2; fi
-git apply "$patch" || exit 2
+git apply "$patch" 2>/dev/null || git apply --3way "$patch" || { git reset -q HEAD -- valjean; git checkout -- valjean; exit 2; }
 mkdir -p /verif/.scratch/$slot
 VF_OUT=/verif/.scratch/$slot /verif/vf check "$pid" --tier "$tier" > /verif/.scratch/$slot/$pid.$tier.log 2>&1
 rc=$?
-git checkout -- valjean
+git reset -q HEAD -- valjean; git checkout -- valjean
 echo "slot=$slot pid=$pid tier=$tier rc=$rc"
 grep -E "VIOLATION|KNOWN-FINDING|key=|^$pid " /verif/.scratch/$slot/$pid.$tier.log | head -12
